@@ -6,6 +6,7 @@ crash point
   2. compares every observed dump with the model's (Kap/Model/C08.lean)                      → MISMATCH.
 -/
 import Kap.Spec.C08
+import Kap.Driver.C08Mig
 open Kap Kap.C08
 
 namespace Kap.C08.Drv
@@ -522,6 +523,7 @@ def judge (_id : String) (lines : Array String) : Verdict :=
   match lines.toList.head? with
   | none => .badop "empty case"
   | some first =>
+    if tokens first == ["mode", "mig"] then Kap.C08.MigDrv.judge lines else
     match parseMode (tokens first) with
     | some (.svc topics) => judgeSvc topics lines
     | some (.node cfg) => judgeNode cfg lines
